@@ -85,24 +85,49 @@ Definition adjust (s : ist) (read cur now : Z) : ist * option Z :=
             else s in
   (s', if (req <=? ada s) && (min_interval <? ada s) then Some (Z.max req 1000000) else None).
 
-(* the operations that touch the record; clock readings that would go backwards do not occur (no-ops) *)
-Inductive iop :=
-| OTick (now : Z)                 (* ticker fired: nextUpdateInterval(now, 0); doUpdate: lastTick = now *)
-| OShrink (now req : Z)           (* shrinkIntervalCh: nextUpdateInterval(now, req); doUpdate if the interval has elapsed *)
-| OSet (nw : Z)
-| OAdjust (read cur now : Z).
+(* ---------- the updateTS loop, exactly ----------
+   loop state: the interval record, the loop's local `currentInterval` (what the ticker was last Reset to) and the
+   buffered channel shrinkIntervalCh (capacity 1).
+     case now := <-ticker.C:      newInterval := nextUpdateInterval(now, 0); doUpdate(now)   [lastTick = now];
+                                  if newInterval != currentInterval { currentInterval = newInterval; ticker.Reset }
+     case req := <-shrinkCh:      now1 := time.Now(); newInterval := nextUpdateInterval(now1, req);
+                                  if newInterval != currentInterval { currentInterval = newInterval;
+                                     if time.Since(lastTick) [reading now2] >= currentInterval { doUpdate(time.Now()) [now3] };
+                                     ticker.Reset }
+   SetLowResolutionTimestampUpdateInterval (any goroutine, under the record's mutex) only changes the record: the
+   loop picks it up at its next tick.  adjustUpdateLowResolutionTSIntervalWithRequestedStaleness (any validator,
+   concurrently) updates lastShortStalenessReadTime and does a NON-BLOCKING send: the request is dropped when the
+   channel is full.  Clock readings never go back: events whose readings would are not enabled (no-ops).
+   WHEN the ticker fires is not constrained (a tick may be handled late, Reset re-arms it): any LTick time >= lastTick. *)
+Record lstate := mkL { li : ist; lcur : Z; lch : option Z }.
+Inductive lop :=
+| LTick (now : Z)
+| LRecv (now1 now2 now3 : Z)
+| LSet (nw : Z)
+| LAdjust (read cur now : Z).
 
 Definition with_tick (s : ist) (t : Z) : ist := mkI (cfg s) (ada s) (last_short_ms s) t (istt s).
-Definition istep (s : ist) (o : iop) : ist :=
+Definition lstep (s : lstate) (o : lop) : lstate :=
   match o with
-  | OTick now => if now <? last_tick s then s else with_tick (fst (next_interval s now 0)) now
-  | OShrink now req =>
-      if (now <? last_tick s) || (req <=? 0) then s else
-      let '(s', ni) := next_interval s now req in
-      if ni <=? now - last_tick s then with_tick s' now else s'
-  | OSet nw => match set_interval s nw with Some s' => s' | None => s end
-  | OAdjust read cur now => fst (adjust s read cur now)
+  | LTick now =>
+      if now <? last_tick (li s) then s else
+      let '(i', ni) := next_interval (li s) now 0 in
+      mkL (with_tick i' now) (if ni =? lcur s then lcur s else ni) (lch s)
+  | LRecv now1 now2 now3 =>
+      match lch s with
+      | None => s
+      | Some req =>
+          if (now1 <? last_tick (li s)) || (now2 <? now1) || (now3 <? now2) then s else
+          let '(i', ni) := next_interval (li s) now1 req in
+          if ni =? lcur s then mkL i' (lcur s) None
+          else mkL (if ni <=? now2 - last_tick i' then with_tick i' now3 else i') ni None
+      end
+  | LSet nw => match set_interval (li s) nw with Some i' => mkL i' (lcur s) (lch s) | None => s end
+  | LAdjust read cur now =>
+      let '(i', sent) := adjust (li s) read cur now in
+      mkL i' (lcur s) (match lch s, sent with None, Some r => Some r | c, _ => c end)
   end.
+Definition init_lstate (c : Z) (t0 : Z) : lstate := mkL (mkI c c 0 t0 ISNone) c None.
 
 (* ---------- lastTSO.arrival, one setLastTS call at a time: record (tso, arrival) ----------
    current.arrival = time.Now() (the reading `now`); publish only if newer; the arrival never goes back *)
@@ -115,14 +140,14 @@ Definition set_last_arr (c : option (Z * Z)) (ts now : Z) : option (Z * Z) :=
 (* ---------- the oracle as a whole: the GetTimestamp / setLastTS system next to the interval record ----------
    SetLowResolutionTimestampUpdateInterval, nextUpdateInterval and the staleness adjustment only touch the
    interval record; they decide WHEN the updateTS goroutine issues its GetTimestamp calls, i.e. the schedule. *)
-Inductive pevent := PSys (e : event) | PInt (o : iop).
-Definition pstep (pd : nat -> Z) (s : sys * ist) (e : pevent) : sys * ist :=
+Inductive pevent := PSys (e : event) | PInt (o : lop).
+Definition pstep (pd : nat -> Z) (s : sys * lstate) (e : pevent) : sys * lstate :=
   match e with
   | PSys e => (step pd (fst s) e, snd s)
-  | PInt o => (fst s, istep (snd s) o)
+  | PInt o => (fst s, lstep (snd s) o)
   end.
-Definition prun (pd : nat -> Z) (s : sys * ist) (es : list pevent) : sys * ist := fold_left (pstep pd) es s.
+Definition prun (pd : nat -> Z) (s : sys * lstate) (es : list pevent) : sys * lstate := fold_left (pstep pd) es s.
 Definition sys_events (es : list pevent) : list event :=
   flat_map (fun e => match e with PSys e => [e] | PInt _ => [] end) es.
-Definition int_ops (es : list pevent) : list iop :=
+Definition int_ops (es : list pevent) : list lop :=
   flat_map (fun e => match e with PSys _ => [] | PInt o => [o] end) es.
